@@ -142,6 +142,31 @@ def check_canonical(case):
         kinds = []
         refdict.decode(ref, n, kinds=kinds)
         return Fail('hash-differs-from-canonical-tree', f'n={n} keys={sorted(mapping)[:4]} kinds in reference tree={Counter(kinds)}')
+    # the same map object after an update: one value overwritten, then one key added; each time the cell must be the canonical
+    # tree of the map as it is NOW
+    k0 = sorted(mapping)[0]
+    v_new = (int(mapping[k0][0], 2) + 1) & 0xFFFF
+    mapping2 = dict(mapping)
+    mapping2[k0] = (format(v_new, '016b'), [])
+    hm.set(int(k0, 2), v_new)
+    steps = [('value-overwritten', dict(mapping2))]
+    extra = format((int(k0, 2) ^ 1) if n else 0, '0%db' % n) if n else None
+    if extra is not None and extra not in mapping2:
+        mapping2 = dict(mapping2)
+        mapping2[extra] = (format(0xBEEF, '016b'), [])
+        steps.append(('key-added', mapping2))
+    for i, (what, mp) in enumerate(steps):
+        if what == 'key-added':
+            hm.set(int(extra, 2), 0xBEEF)
+        try:
+            ref2 = refdict.build(mp, n)
+        except rc.RefCellError:
+            return None
+        ok, cell2 = call(hm.serialize)
+        if not ok:
+            return Fail(f'serialize-raises/after-update/{type(cell2).__name__}', f'{exc_sig(cell2)} n={n}')
+        if cell2.hash != ref2.repr_hash():
+            return Fail(f'hash-differs-from-canonical-tree/after-update/{what}', f'n={n}: serialised, {what}, serialised again')
     return None
 
 
